@@ -326,7 +326,8 @@ MAP_CTORS = {
 COMMON_MAPS = ["dict", "dict", "dict", "typing.Dict", "typing.Mapping", "collections.OrderedDict"]
 
 STRUCT_FLAVOURS = ["dataclass", "dataclass", "dc_slots", "dc_kwonly", "dc_frozen", "namedtuple", "typeddict",
-                   "typeddict_partial", "typeddict_notrequired", "plain", "plain_initonly", "slotsclass"]
+                   "typeddict_partial", "typeddict_notrequired", "typeddict_partial_required", "typeddict_inherit", "plain", "plain_initonly",
+                   "slotsclass"]
 HASHABLE_STRUCT_FLAVOURS = ["dc_frozen", "namedtuple"]
 FIELD_NAMES = ["f0", "f1", "f2", "f3", "x", "y", "val", "id", "data", "name", "value", "kind", "items_", "key"]
 ENUM_STR_VALUES = ["1", "null", "[1]", "x", "a b", "true", "2020-01-01", "", "None", "1.5", "yes", '{"a":1}']
@@ -582,6 +583,24 @@ class Gen:
         elif fl == "namedtuple":
             body = "".join(f"    {f[0]}: {q(f)}" + (f" = {f[2]}" if f[2] is not None else "") + "\n" for f in fields)
             self.prog.emit(f"class {name}(typing.NamedTuple):\n{body}")
+        elif fl == "typeddict_inherit":
+            # a total=False TypedDict extending a total one: the base's keys stay required
+            k = rng.randrange(1, len(fields) + 1)
+            base_name = name + "_tdbase"
+            self.prog.emit(f"class {base_name}(typing.TypedDict):\n" + "".join(f"    {f[0]}: {q(f)}\n" for f in fields[:k]))
+            self.prog.emit(f"class {name}({base_name}, total=False):\n" + ("".join(f"    {f[0]}: {q(f)}\n" for f in fields[k:]) or "    pass\n"))
+            spec.info["required"] = [f[0] for f in fields[:k]]
+        elif fl == "typeddict_partial_required":
+            # total=False with individual keys marked Required[...]
+            lines, req = [], []
+            for i, f in enumerate(fields):
+                if i % 2 == 0:
+                    lines.append(f"    {f[0]}: typing.Required[{q(f)}]\n")
+                    req.append(f[0])
+                else:
+                    lines.append(f"    {f[0]}: {q(f)}\n")
+            spec.info["required"] = req
+            self.prog.emit(f"class {name}(typing.TypedDict, total=False):\n{''.join(lines)}")
         elif fl.startswith("typeddict"):
             total = "" if fl != "typeddict_partial" else ", total=False"
             lines = []
